@@ -312,7 +312,8 @@ class AbstractHasAxes(AbstractHasMetadata):
 
         # should always be a tuple
         if isinstance(indices, dict):
-            # replace int dimensions with str dimensions
+            # replace int dimensions with str dimensions (in a copy: the caller's dict is left alone)
+            indices = dict(indices)
             for k in list(indices):
                 if not isinstance(k, str):
                     indices[dims[k]] = indices[k]
